@@ -287,9 +287,120 @@ Definition import_problems (m : omodel) (f : ofunction) : list (string * string)
                         end
                       end) (of_opsets f).
 
-Definition all_problems (m : omodel) : list (string * string) :=
+Definition base_problems (m : omodel) : list (string * string) :=
   (flat_map (fun g => flat_map (node_problems m (om_opsets m)) (og_nodes g)) (om_graphs m)
    ++ flat_map (fun f => flat_map (node_problems m (of_opsets f)) (of_nodes f) ++ import_problems m f) (om_functions m))%list.
+
+(* ------------------------------------------------------------------ element types of node inputs
+   The schema version the declared opset selects also fixes which tensor element types each formal input accepts
+   (GenSchemas: sv_in_types, a bit mask over TensorProto.DataType codes per formal input).  Checked for every node
+   input whose element type is KNOWN in its own graph: graph inputs, initializers, value_info, graph outputs, and the
+   outputs of Constant / Cast nodes (read from their `value` / `to` attribute). *)
+Definition tenv := list (string * Z).
+
+Definition declared_types (vs : list vinfo) : tenv :=
+  flat_map (fun v => if vi_dtype v =? 0 then [] else [(vi_name v, vi_dtype v)]) vs.
+
+Definition node_out_types (n : onode) : tenv :=
+  if negb (String.eqb (on_domain n) "" || String.eqb (on_domain n) "ai.onnx") then [] else
+  match on_outs n with
+  | [o] =>
+    if String.eqb (on_op n) "Constant" then
+      match lookup (on_attrs n) "value" with Some (ATensor dt _ _) => if dt =? 0 then [] else [(o, dt)] | _ => [] end
+    else if String.eqb (on_op n) "Cast" then
+      match lookup (on_attrs n) "to" with Some (AInt dt) => if dt =? 0 then [] else [(o, dt)] | _ => [] end
+    else []
+  | _ => []
+  end.
+
+Definition known_types (g : ograph) : tenv :=
+  (declared_types (og_inputs g ++ og_inits g ++ og_vinfos g ++ og_outputs g) ++ flat_map node_out_types (og_nodes g))%list.
+Definition fun_known_types (f : ofunction) : tenv := flat_map node_out_types (of_nodes f).
+
+(* the schema version the validator selects for a node that is not a call of a model function *)
+Definition selected_schema (funs : list ofunction) (imports : list (string * Z)) (n : onode) : option schema_ver :=
+  match opset_of imports (on_domain n), find_function funs n, domain_table (on_domain n) with
+  | Some declared, None, Some tbl => match lookup tbl (on_op n) with Some vs => version_at vs declared | None => None end
+  | _, _, _ => None
+  end.
+
+Lemma selected_schema_spec funs imports n sv : selected_schema funs imports n = Some sv ->
+  exists declared tbl vs, opset_of imports (on_domain n) = Some declared /\ (forall f, ~ calls_function funs n f) /\
+    domain_table (on_domain n) = Some tbl /\ In (on_op n, vs) tbl /\ is_version_at vs declared sv.
+Proof.
+  unfold selected_schema. destruct (opset_of imports (on_domain n)) as [declared|]; [|discriminate].
+  unfold find_function. destruct (find (is_call n) funs) eqn:Ef; [discriminate|].
+  destruct (domain_table (on_domain n)) as [tbl|]; [|discriminate].
+  destruct (lookup tbl (on_op n)) as [vs|] eqn:El; [|discriminate]. intro H.
+  exists declared, tbl, vs. split; [reflexivity|]. split; [|split; [reflexivity|split]].
+  - intros f (Hin & Hd & Ho). pose proof (find_none _ _ Ef _ Hin) as Hc. unfold is_call in Hc.
+    rewrite Hd, Ho, !String.eqb_refl in Hc. discriminate.
+  - now apply lookup_In.
+  - now apply version_at_spec.
+Qed.
+
+(* the type mask of the i-th actual input: the i-th formal, or the last formal when that one is variadic *)
+Definition formal_mask (sv : schema_ver) (i : nat) : option Z :=
+  match nth_error (sv_in_types sv) i with
+  | Some mk => Some mk
+  | None => if sv_in_variadic sv then
+              match sv_in_types sv with [] => None | _ => Some (last (sv_in_types sv) (-1)) end
+            else None
+  end.
+
+(* mask < 0: the dump could not express the constraint as a set of tensor element types -> not checked *)
+Definition type_allowed (mask dt : Z) : bool := (mask <? 0) || (dt <? 0) || Z.testbit mask dt.
+
+Definition input_type_problem (env : tenv) (sv : schema_ver) (i : nat) (name : string) : list string :=
+  match lookup env name, formal_mask sv i with
+  | Some dt, Some mask => if type_allowed mask dt then [] else ["input-type:" ++ name]
+  | _, _ => []
+  end.
+
+Fixpoint ins_type_problems (env : tenv) (sv : schema_ver) (i : nat) (ins : list string) : list string :=
+  match ins with [] => [] | name :: r => (input_type_problem env sv i name ++ ins_type_problems env sv (S i) r)%list end.
+
+Definition node_type_problems (env : tenv) (funs : list ofunction) (imports : list (string * Z)) (n : onode)
+  : list (string * string) :=
+  match selected_schema funs imports n with
+  | Some sv => map (fun p => (on_op n, p)) (ins_type_problems env sv 0 (on_ins n))
+  | None => []
+  end.
+
+Definition type_problems (m : omodel) : list (string * string) :=
+  (flat_map (fun g => flat_map (node_type_problems (known_types g) (om_functions m) (om_opsets m)) (og_nodes g)) (om_graphs m)
+   ++ flat_map (fun f => flat_map (node_type_problems (fun_known_types f) (om_functions m) (of_opsets f)) (of_nodes f))
+               (om_functions m))%list.
+
+Definition all_problems (m : omodel) : list (string * string) := (base_problems m ++ type_problems m)%list.
+
+(* declarative: every input of the node whose element type is known is of a type the selected schema version allows *)
+Definition node_types_conform (env : tenv) (funs : list ofunction) (imports : list (string * Z)) (n : onode) : Prop :=
+  forall sv i name dt mask, selected_schema funs imports n = Some sv ->
+    nth_error (on_ins n) i = Some name -> lookup env name = Some dt -> formal_mask sv i = Some mask ->
+    mask < 0 \/ dt < 0 \/ Z.testbit mask dt = true.
+
+Lemma ins_type_problems_nil env sv ins : forall k, ins_type_problems env sv k ins = [] ->
+  forall j name, nth_error ins j = Some name -> input_type_problem env sv (k + j) name = [].
+Proof.
+  induction ins as [|a r IH]; intros k H j name Hj; [destruct j; discriminate|].
+  simpl in H. apply app_eq_nil in H. destruct H as [Ha Hr]. destruct j as [|j]; simpl in Hj.
+  - inversion Hj; subst. now rewrite Nat.add_0_r.
+  - rewrite <- plus_n_Sm. change (S (k + j)) with (S k + j)%nat. now apply IH.
+Qed.
+
+Lemma node_type_problems_sound env funs imports n :
+  node_type_problems env funs imports n = [] -> node_types_conform env funs imports n.
+Proof.
+  unfold node_type_problems, node_types_conform. intros H sv i name dt mask Hs Hi Hl Hm. rewrite Hs in H.
+  apply map_eq_nil in H. pose proof (ins_type_problems_nil _ _ _ _ H _ _ Hi) as P. simpl in P.
+  unfold input_type_problem in P. rewrite Hl, Hm in P.
+  destruct (type_allowed mask dt) eqn:E; [|discriminate]. unfold type_allowed in E.
+  apply orb_true_iff in E. destruct E as [E|E]; [apply orb_true_iff in E; destruct E as [E|E]|].
+  - left. now apply Z.ltb_lt.
+  - right. left. now apply Z.ltb_lt.
+  - right. right. assumption.
+Qed.
 
 Definition opset_ok (m : omodel) : bool := match all_problems m with [] => true | _ => false end.
 Definition opset_first_bad (m : omodel) : option (string * string) := hd_error (all_problems m).
@@ -306,8 +417,17 @@ Proof.
   apply app_eq_nil in H. destruct H as [Ha Hr]. destruct Hin as [->|Hin]; [assumption|now apply IH].
 Qed.
 
-Lemma opset_ok_all m : opset_ok m = true -> all_problems m = [].
-Proof. unfold opset_ok. destruct (all_problems m); [reflexivity|discriminate]. Qed.
+Lemma opset_ok_all m : opset_ok m = true -> base_problems m = [].
+Proof.
+  unfold opset_ok, all_problems. destruct (base_problems m ++ type_problems m)%list eqn:E; [|discriminate].
+  intros _. now apply app_eq_nil in E.
+Qed.
+
+Lemma opset_ok_types m : opset_ok m = true -> type_problems m = [].
+Proof.
+  unfold opset_ok, all_problems. destruct (base_problems m ++ type_problems m)%list eqn:E; [|discriminate].
+  intros _. now apply app_eq_nil in E.
+Qed.
 
 Lemma node_problems_nil m imports n : node_problems m imports n = [] ->
   node_problem (om_functions m) imports n = None /\
@@ -326,7 +446,7 @@ Qed.
 Theorem opset_ok_sound m : opset_ok m = true ->
   forall g n, In g (om_graphs m) -> In n (og_nodes g) -> node_conforms m n.
 Proof.
-  intros H g n Hg Hn. apply opset_ok_all in H. unfold all_problems in H.
+  intros H g n Hg Hn. apply opset_ok_all in H. unfold base_problems in H.
   apply app_eq_nil in H. destruct H as [H _].
   pose proof (flat_map_nil _ _ H _ Hg) as H1. pose proof (flat_map_nil _ _ H1 _ Hn) as H2.
   apply node_problems_nil in H2. apply node_problem_sound. tauto.
@@ -336,7 +456,7 @@ Qed.
 Theorem opset_ok_sound_functions m : opset_ok m = true ->
   forall f n, In f (om_functions m) -> In n (of_nodes f) -> fnode_conforms m f n.
 Proof.
-  intros H f n Hf Hn. apply opset_ok_all in H. unfold all_problems in H.
+  intros H f n Hf Hn. apply opset_ok_all in H. unfold base_problems in H.
   apply app_eq_nil in H. destruct H as [_ H].
   pose proof (flat_map_nil _ _ H _ Hf) as H1. apply app_eq_nil in H1. destruct H1 as [H1 _].
   pose proof (flat_map_nil _ _ H1 _ Hn) as H2.
@@ -348,13 +468,28 @@ Theorem opset_ok_function_imports m : opset_ok m = true ->
   forall f d v, In f (om_functions m) -> In (d, v) (of_opsets f) -> domain_table d <> None ->
   opset_of (om_opsets m) d = Some v.
 Proof.
-  intros H f d v Hf Hd Hdom. apply opset_ok_all in H. unfold all_problems in H.
+  intros H f d v Hf Hd Hdom. apply opset_ok_all in H. unfold base_problems in H.
   apply app_eq_nil in H. destruct H as [_ H].
   pose proof (flat_map_nil _ _ H _ Hf) as H1. apply app_eq_nil in H1. destruct H1 as [_ H1].
   unfold import_problems in H1. pose proof (flat_map_nil _ _ H1 _ Hd) as H2. simpl in H2.
   destruct (domain_table d); [|congruence].
   destruct (opset_of (om_opsets m) d) as [v'|]; [|discriminate].
   destruct (v' =? v) eqn:E; [|discriminate]. apply Z.eqb_eq in E. now subst.
+Qed.
+
+(* SOUNDNESS, element types: in every graph of the table, and in every function body, each node input with a known
+   element type has a type the schema version selected by the declared opset allows *)
+Theorem opset_ok_types_sound m : opset_ok m = true ->
+  (forall g n, In g (om_graphs m) -> In n (og_nodes g) ->
+     node_types_conform (known_types g) (om_functions m) (om_opsets m) n) /\
+  (forall f n, In f (om_functions m) -> In n (of_nodes f) ->
+     node_types_conform (fun_known_types f) (om_functions m) (of_opsets f) n).
+Proof.
+  intro H. apply opset_ok_types in H. unfold type_problems in H. apply app_eq_nil in H. destruct H as [Hg Hf]. split.
+  - intros g n Hin Hn. apply node_type_problems_sound.
+    exact (flat_map_nil _ _ (flat_map_nil _ _ Hg _ Hin) _ Hn).
+  - intros f n Hin Hn. apply node_type_problems_sound.
+    exact (flat_map_nil _ _ (flat_map_nil _ _ Hf _ Hin) _ Hn).
 Qed.
 
 (* nested bodies: every body reachable from the main graph through graph attributes is in the table,
@@ -371,7 +506,7 @@ Proof.
   assert (Hex : exists g, graph_by_id m i = Some g).
   { induction Hr as [|i g n j Hr IH Hg Hn Hj].
     - unfold graph_by_id. destruct (om_graphs m) as [|g0 r]; [contradiction|]. now exists g0.
-    - pose proof (opset_ok_all _ H) as Ha. unfold all_problems in Ha.
+    - pose proof (opset_ok_all _ H) as Ha. unfold base_problems in Ha.
       apply app_eq_nil in Ha. destruct Ha as [Ha _].
       assert (Hin : In g (om_graphs m)) by (unfold graph_by_id in Hg; now apply nth_error_In in Hg).
       pose proof (flat_map_nil _ _ Ha _ Hin) as H1. pose proof (flat_map_nil _ _ H1 _ Hn) as H2.
@@ -593,6 +728,31 @@ Proof. vm_compute. reflexivity. Qed.
 Example ex_undeclared_domain :
   opset_first_bad (mkOM 10 [("", 23)] [mkOG 0 None [] [] [mkON "F" "custom" "call" ["x"] ["y"] []] [] []] [])
   = Some ("F", "domain-not-imported").
+Proof. vm_compute. reflexivity. Qed.
+Definition mk_typed_model (opset : Z) (inits : list vinfo) (nodes : list onode) : omodel :=
+  mkOM 10 [("", opset)] [mkOG 0 None [] inits nodes [] []] [].
+(* Range of float16 (code 10) operands: not allowed by Range-11 (selected at opsets 11..26), allowed by Range-27 *)
+Example ex_range_f16_26_bad :
+  opset_first_bad (mk_typed_model 26 [mkVI "s" 10 (Some []); mkVI "l" 10 (Some []); mkVI "d" 10 (Some [])]
+                                    [mk_node "Range" ["s"; "l"; "d"] ["y"] []]) = Some ("Range", "input-type:s").
+Proof. vm_compute. reflexivity. Qed.
+Example ex_range_f16_27_ok :
+  opset_ok (mk_typed_model 27 [mkVI "s" 10 (Some []); mkVI "l" 10 (Some []); mkVI "d" 10 (Some [])]
+                              [mk_node "Range" ["s"; "l"; "d"] ["y"] []]) = true.
+Proof. vm_compute. reflexivity. Qed.
+Example ex_range_f32_26_ok :
+  opset_ok (mk_typed_model 26 [mkVI "s" 1 (Some []); mkVI "l" 1 (Some []); mkVI "d" 1 (Some [])]
+                              [mk_node "Range" ["s"; "l"; "d"] ["y"] []]) = true.
+Proof. vm_compute. reflexivity. Qed.
+(* types known only through Cast / Constant outputs (function bodies carry no value_info) *)
+Example ex_range_cast_f16_26_bad :
+  opset_first_bad (mk_typed_model 26 [] [mk_node "Cast" ["a"] ["s"] [("to", AInt 16)];
+                                         mk_node "Range" ["s"; "l"; "d"] ["y"] []]) = Some ("Range", "input-type:s").
+Proof. vm_compute. reflexivity. Qed.
+(* variadic formal: every Concat operand is checked against the single formal *)
+Example ex_concat_variadic_ok :
+  opset_ok (mk_typed_model 21 [mkVI "a" 1 (Some []); mkVI "b" 1 (Some []); mkVI "c" 1 (Some [])]
+                              [mk_node "Concat" ["a"; "b"; "c"] ["y"] [("axis", AInt 0)]]) = true.
 Proof. vm_compute. reflexivity. Qed.
 Example ex_deprecated : opset_first_bad (mk_model 21 [mk_node "Scatter" ["d"; "i"; "u"] ["y"] []]) = Some ("Scatter", "deprecated-op").
 Proof. vm_compute. reflexivity. Qed.
